@@ -14,6 +14,9 @@ ConstInit ==
   /\ Texts = ITexts
   /\ Valid = {"q1", "q2"}
   /\ HashOf = [t \in ITexts |-> IF t = "q1" THEN "h:q1" ELSE IF t = "q2" THEN "h:q2" ELSE "h:bad"]
+  /\ ImplHash = HashOf
+  /\ AltHashes = {"u:q1"}
+  /\ CanonOf = [h \in {"u:q1"} |-> "h:q1"]
   /\ WrongHashes = {"x:rand", "x:empty"}
   /\ Kinds = {"map", "lru"}
   /\ Caps = {1, 2, 3}
